@@ -71,8 +71,14 @@ def run(rep, tier, seed):
             line = ' '.join(['S', 'cmcompressp', stack, tb(b2s(bad)), DIRC[d], 'F'] + rules_tokens(nrs))
             b.add('manager-compress:malformed', line, out, parse_model_bits, fails,
                   dict(layer='schc', op='cmcompress', stack=stack, packet=bad.hex(), rules=nrs, direction=DIRC[d], strategy='first'), key=line)
-        # SCHC packets matching no rule id
+        # SCHC packets that ARE a rule id, nothing behind it (a rule eliding everything, no payload): must be dispatched, never the rule-ID error
         ids = [nr['id'] for nr in nrs]
+        for s in ids[:2]:
+            out = obs_bits(with_timeout(lambda: cm.decompress(mk(s, rnd.choice([L, R])))))
+            fails = ['SCHC packet %s is exactly the id of a rule but decompress raised the rule-ID error' % s] if out == ('EXC', 'RuleIDMatchError') else []
+            line = ' '.join(['S', 'cmdecompress', tb(s), 'N'] + rules_tokens(nrs))
+            b.add('manager-decompress:id-only', line, out, parse_model_bits, fails, dict(layer='schc', op='cmdecompress', schc=s, rules=nrs), key=line)
+        # SCHC packets matching no rule id
         for _ in range(3):
             s = rnd.choice(['', randbits(rnd, rnd.randint(0, 20)), rnd.choice(ids)[:-1], randbits(rnd, 1)])
             if any(s.startswith(i) for i in ids):
@@ -103,7 +109,13 @@ def run(rep, tier, seed):
                 rules.append(no_compression_rule(ids[pos]))
                 pos += 1
             ctxs.append(Context(id='c%d' % k, description='', interface_id='if0', parser_id=stacks[k], ruleset=rules))
-        front = SCHC(ctxs)
+        # contexts of OTHER interfaces must never be consulted: a decoy context that accepts everything sits on another interface
+        decoys = [Context(id='decoy%d' % k, description='', interface_id='if%d' % (k + 1), parser_id=stacks[k % nctx],
+                          ruleset=[no_compression_rule('1' * 17 + format(k, '02b'))]) for k in range(rnd.randint(0, 2))]
+        order = ctxs + decoys
+        if decoys and rnd.random() < 0.5:
+            order = decoys + ctxs
+        front = SCHC(order)
         nctxs = [[n_rule(r) for r in c.ruleset] for c in ctxs]
         for step in range(6):
             r = rnd.random()
